@@ -204,5 +204,9 @@ def run(tier, seed):
         rep.sample(meta[t])
     rep.assumptions = ["exhaustive part compares in integer micro-units / 1e-4 time-step units (values already on the format's grid)",
                        "a 0-d result for a one-sample file is not a record of length 1"]
-    return rep.finish(checker_cmd="tlc TextFormat / Trace_TextFormat (harness/drivers/c16.py)",
+    # histories: the files as a state machine (spec/FileStore.tla), behaviours replayed on real files, sessions validated by
+    # Trace_FileStore which carries what every path holds
+    from harness import filestore
+    filestore.run(rep, tier, seed, "C16/store", LOADERS, load)
+    return rep.finish(checker_cmd="tlc TextFormat / Trace_TextFormat / FileStore / Trace_FileStore (harness/drivers/c16.py, harness/filestore.py)",
                       trusted_base=["TLC 1.8", "FP.class", "TableIO.class", "the file system under /verif/work"])
